@@ -22,7 +22,10 @@ VAL = {"data": 1.0, "builtin": 2.0, "extra": 5.0}
 def gen(rng, tier):
     cases = []
     # kwarg: the name is the VALUE of a keyword argument; nested: it is an argument of a call inside a call
-    for role in ("arg", "callee", "callee-py", "dotted", "dotted2", "dotted3", "bq", "kwarg", "kwarg-same", "nested"):
+    # kwarg-index: the name is `index` (what pandas calls the row labels) and one row of the frame is incomplete, so
+    # the data handed to the terms is a trimmed frame: the row labels are not a variable
+    for role in ("arg", "callee", "callee-py", "dotted", "dotted2", "dotted3", "bq", "kwarg", "kwarg-same", "nested",
+                 "kwarg-index"):
         for r in range(0, 6):
             for subset in itertools.combinations(SCOPES, r):
                 if role == "bq" and "local" in subset:
@@ -60,7 +63,7 @@ def nontrivial(c, mo, obs):
 
 
 def _name(c):
-    return {"env-object": "nm", "arg": "nm", "callee": "nm", "dotted": "mod", "bq": "my nm", "arg-none": "nm", "kwarg": "nm",
+    return {"kwarg-index": "index", "env-object": "nm", "arg": "nm", "callee": "nm", "dotted": "mod", "bq": "my nm", "arg-none": "nm", "kwarg": "nm",
             "nested": "nm", "dotted2": "mod", "dotted3": "mod", "kwarg-same": "nm", "enc": "Sum", "callee-py": "round"}[c["role"]]
 
 
@@ -152,7 +155,7 @@ def model_cmd(c):
             gl = [[name, mark("global", 20.0 + j)]] if "global" in d else []
             stack.append([lo, gl])
         data = []
-    role = "arg" if c["role"] in ("arg", "bq", "arg-none", "kwarg", "kwarg-same", "nested", "enc") else "callee"
+    role = "arg" if c["role"] in ("arg", "bq", "arg-none", "kwarg", "kwarg-same", "nested", "enc", "kwarg-index") else "callee"
     path = {"dotted": ["mod", "nm"], "dotted2": ["mod", "sub", "nm"]}.get(c["role"], [name])
     if c["role"] == "dotted3":
         path = ["mod", "sub", "deep", "nm"]
@@ -180,6 +183,8 @@ def _run(c):
             return Treatment      # a user object called Sum that would give another coding
         if role == "arg-none":
             return None if scope == none_first else float(v)
+        if role == "kwarg-index":
+            return float(v)        # a scalar: the frame loses a row, an array of the original length would not fit
         if role in ("arg", "bq", "kwarg", "kwarg-same", "nested"):
             return np.full(n, float(v))
         fn = (lambda x, _v=float(v): x * 0 + _v)
@@ -201,17 +206,20 @@ def _run(c):
     cols = {"y": np.arange(n, dtype=float), "x": np.arange(n, dtype=float) + 1}
     if "data" in d:
         cols[name] = np.full(n, VAL["data"])
+    if role == "kwarg-index":
+        cols["x"] = cols["x"].copy()
+        cols["x"][2] = np.nan      # one incomplete row: na_action='drop' trims the frame
     if role == "enc":
         cols["gq"] = ["r", "p", "q", "r", "p"]
     df = pd.DataFrame(cols)
     formula = {"arg": "y ~ I(nm)", "callee": "y ~ nm(x)", "callee-py": "y ~ round(x)", "dotted": "y ~ mod.nm(x)", "dotted2": "y ~ mod.sub.nm(x)", "dotted3": "y ~ mod.sub.deep.nm(x)", "bq": "y ~ I(`my nm`)",
-               "arg-none": "y ~ sel_(x, nm)", "kwarg": "y ~ keep_(x, w=nm)", "kwarg-same": "y ~ same_(x, nm=nm)", "enc": "y ~ 0 + C(gq, Sum)",
+               "arg-none": "y ~ sel_(x, nm)", "kwarg": "y ~ keep_(x, w=nm)", "kwarg-index": "y ~ keep_(x, w=index)", "kwarg-same": "y ~ same_(x, nm=nm)", "enc": "y ~ 0 + C(gq, Sum)",
                "nested": "y ~ keep_(x, w=keep_(x, nm))"}[role]
     extra = {name: val(VAL["extra"], "extra")} if "extra" in d else None
     if role == "arg-none":
         extra = dict(extra or {})
         extra["sel_"] = lambda a, b: a if b is None else a * 0 + b
-    if role in ("kwarg", "nested", "kwarg-same"):
+    if role in ("kwarg", "nested", "kwarg-same", "kwarg-index"):
         extra = dict(extra or {})
         extra["keep_"] = lambda a, w: np.asarray(a) * 0 + np.asarray(w)
         extra["same_"] = lambda a, nm: np.asarray(a) * 0 + np.asarray(nm)
